@@ -45,3 +45,9 @@ chk('C02', 'exploration',
     'Reach counters of the walker/validator mechanisms and per-map segment-node coverage are part of the evidence. Held on the documents produced, inside the unambiguous sub-language of each map.',
     'Trusted: vlib/gen_doc.py + vlib/refmap.py (conservative conformance rules in DESIGN 4.1); a rejection is read against the map before being called a defect.',
     'runtime monitoring of the real validator on map-derived generated documents', 'DESIGN.md 5 C02')
+chk('C07', 'exploration',
+    'Thousands of mutated fixture/generated documents and arbitrary strings per run are pushed through x12n_document under all 16 sink/charset combinations, through plain reader '
+    'iteration and through the context reader; every escaping exception is caught at the API boundary and classified against the documented refusals, and a deterministic step budget '
+    '(sys.monitoring function-entry counter) stands in for termination. Absence of crashes is only claimed for the inputs produced; evidence carries the outcome histogram.',
+    'Trusted: the allowed-outcome classifier in checks/c07.py; termination is a bounded-progress check, not a proof.',
+    'runtime monitoring under mutation/fuzz workloads with exception classification and a logical step budget', 'DESIGN.md 5 C07')
